@@ -299,7 +299,7 @@ func observe(c *Case) *Obs {
 }
 
 func childMain() {
-	debug.SetMaxStack(48 << 20) // a runaway recursion ends quickly
+	debug.SetMaxStack(16 << 20) // a runaway recursion ends quickly
 	dec := json.NewDecoder(os.Stdin)
 	enc := json.NewEncoder(os.Stdout)
 	for {
@@ -1206,6 +1206,40 @@ func cycleCase() *Case {
 		Listed: []int{0}, Pass: []int{1, 2}, Shape: "passthrough-cycle-2"}
 }
 
+// bounded-exhaustive small scope (thorough tier): three apps with one endpoint each; the endpoint of app i calls
+// any subset of the three endpoints (8^3 call graphs: every self-loop, 2-cycle and 3-cycle shape); A00 is listed;
+// any subset of {A01, A02} is pass-through; A02 is excluded or not.
+func exhaustive3(one func(*Case)) int {
+	n := 0
+	for g := 0; g < 512; g++ {
+		for pm := 0; pm < 4; pm++ {
+			for xm := 0; xm < 2; xm++ {
+				c := &Case{Listed: []int{0}, Shape: "exhaustive-3"}
+				for i := 0; i < 3; i++ {
+					var body []Stmt
+					for j := 0; j < 3; j++ {
+						if g>>(3*i+j)&1 == 1 {
+							body = append(body, Stmt{K: kCall, A: j, E: 1})
+						}
+					}
+					c.Apps = append(c.Apps, App{Name: fmt.Sprintf("A%02d", i), Eps: []Ep{{ID: 1, Body: body}}})
+				}
+				for j := 0; j < 2; j++ {
+					if pm>>j&1 == 1 {
+						c.Pass = append(c.Pass, j+1)
+					}
+				}
+				if xm == 1 {
+					c.ExclAttr = []int{2}
+				}
+				one(c)
+				n++
+			}
+		}
+	}
+	return n
+}
+
 // ---------------------------------------------------------------- Gallina
 
 func gb(b bool) string {
@@ -1288,7 +1322,7 @@ func main() {
 	}
 	ctx := common.Setup("C14")
 	defer ctx.Finish()
-	ctx.Res.Rule = "each case = random model (2-8 apps, 1-3 endpoints each plus sometimes the collector endpoint, calls nested up to 3 deep in if/loop/for/group/alt blocks, hidden endpoints, human apps, sometimes an undefined target app or endpoint, plain or namespaced names) x a project endpoint listing a random subset (sometimes with excluded / human / undefined / repeated entries) x exclude sets (CLI and attribute) x pass-through sets; an eighth of the cases each force: an excluded caller of a listed app (x2), a pass-through cycle of length 1-4 reachable from a listed app (x2), an acyclic pass-through chain, odd listings; every case is rendered as plain, clustered and EPA diagram; distinct = distinct case term; non-trivial = the real builder returns at least one dependency"
+	ctx.Res.Rule = "each case = random model (2-8 apps, 1-3 endpoints each plus sometimes the collector endpoint, calls nested up to 3 deep in if/loop/for/group/alt blocks, hidden endpoints, human apps, sometimes an undefined target app or endpoint, plain or namespaced names) x a project endpoint listing a random subset (sometimes with excluded / human / undefined / repeated entries) x exclude sets (CLI and attribute) x pass-through sets; an eighth of the cases each force: an excluded caller of a listed app (x2), a pass-through cycle of length 1-4 reachable from a listed app (x2), an acyclic pass-through chain, odd listings; the thorough tier adds the bounded-exhaustive scope of all call graphs over 3 apps x 1 endpoint x pass-through subsets x one exclude (4096 cases); a case whose seed pass would visit more than 3000 call statements loses pass-through apps until it does not; every case is rendered as plain, clustered and EPA diagram; distinct = distinct case term; non-trivial = the real builder returns at least one dependency"
 	if ctx.Replay != "" {
 		var rp replay
 		if err := common.LoadReplay(ctx.Replay, &rp); err != nil {
@@ -1317,7 +1351,7 @@ Definition T := true. Definition F := false.`
 
 	n := 900
 	if ctx.Thorough() {
-		n = 24000
+		n = 14000
 	}
 	if ctx.Search {
 		n *= 3
@@ -1372,6 +1406,10 @@ Definition T := true. Definition F := false.`
 	one(cycleCase()) // the confirmed defect first
 	for i := 0; i < n; i++ {
 		one(genCase(ctx.Rng, ctx.Search && i%3 == 0))
+	}
+	if ctx.Thorough() {
+		k := exhaustive3(one)
+		ctx.Res.Extra["exhaustive_subscope"] = fmt.Sprintf("%d cases: all call graphs over 3 apps x 1 endpoint (each endpoint calls any subset of the 3), A00 listed, every pass-through subset of {A01,A02}, A02 excluded or not", k)
 	}
 	cs.Close()
 	stopChild()
